@@ -280,10 +280,98 @@ def replay_rect(mg, d):
     return probs
 
 
+def replay_inversion(mg, d):
+    """geometry with the given layer and column names: the block of (last layer, last column)"""
+    import numpy as np
+    conv = d['conv']
+    g = mg.mulgrid(convention=conv, atmos_type=2)
+    for q, x in enumerate(d['layers']): g.add_layer(mg.layer(x, -1.0 - q, -0.5 - q, -1.0 * q))
+    for q, x in enumerate(d['columns']): g.add_column(mg.column(x, [], np.array([1.0 * q, 0.0]), 0.0))
+    l, c = d['layers'][-1], d['columns'][-1]
+    blk = g.block_name(l, c)
+    raw = (c + l) if conv in (0, 3) else (l + c)
+    probs = []
+    if not isinstance(blk, str) or len(blk) != 5: probs.append('block name %r of layer %r column %r is not 5 characters' % (blk, l, c))
+    if blk != fix_o(raw): probs.append('block name %r is not the repaired concatenation %r' % (blk, fix_o(raw)))
+    if g.column_name(blk) != c: probs.append('column_name(%r) = %r, built from column %r (columns of the geometry: %r)' % (blk, g.column_name(blk), c, d['columns']))
+    if g.layer_name(blk) != l: probs.append('layer_name(%r) = %r, built from layer %r (layers of the geometry: %r)' % (blk, g.layer_name(blk), l, d['layers']))
+    return probs
+
+
+TINY_MSH = """$MeshFormat
+2.2 0 8
+$EndMeshFormat
+$Nodes
+6
+1 0 0 0
+2 10 0 0
+3 20 0 0
+4 0 10 0
+5 10 10 0
+6 20 10 0
+$EndNodes
+$Elements
+2
+1 3 2 0 1 1 2 5 4
+2 3 2 0 1 2 3 6 5
+$EndElements
+"""
+
+class _Rec(object):
+    def __init__(self, **kw): self.__dict__.update(kw)
+
+def tiny_layermesh(np):
+    """duck-typed Layermesh mesh with the geometry of TINY_MSH and two layers"""
+    xy = [(0., 0.), (10., 0.), (20., 0.), (0., 10.), (10., 10.), (20., 10.)]
+    nodes = [_Rec(index=k, pos=np.array(list(p))) for k, p in enumerate(xy)]
+    cols = [_Rec(index=0, node=[nodes[q] for q in (0, 1, 4, 3)], centre=np.array([5., 5.]), surface=0.0),
+            _Rec(index=1, node=[nodes[q] for q in (1, 2, 5, 4)], centre=np.array([15., 5.]), surface=0.0)]
+    lays = [_Rec(thickness=1.0, top=0.0), _Rec(thickness=1.0, top=-1.0)]
+    return _Rec(node=nodes, column=cols, layer=lays)
+
+def replay_gmsh(mg, d):
+    import os, tempfile
+    conv, caller, spaces, just, text = d['conv'], d['caller'], d['spaces'], d['just'], d['text']
+    path = os.path.join(tempfile.gettempdir(), 'c17_replay_tiny_%d.msh' % os.getpid())
+    with open(path, 'w') as fh: fh.write(TINY_MSH)
+    CL = name_length('column', conv)
+    try:
+        try:
+            if d.get('source') == 'layermesh':
+                import numpy as np
+                g = mg.mulgrid().from_layermesh(tiny_layermesh(np), convention=conv, atmosphere_type=2, justify=just, chars=text, spaces=spaces)
+            else:
+                g = mg.mulgrid(convention=caller).from_gmsh(path, [1.0, 1.0], convention=conv, atmos_type=2, justify=just, chars=text, spaces=spaces)
+        except mg.NamingConventionError as ex:
+            nd = len(set(text))
+            if 6 <= capacity('node', conv, nd, spaces) and 2 <= capacity('layer', conv, nd, spaces):
+                return ['NamingConventionError (%s) although 6 nodes, 2 columns and 2 layers fit the name space of %r under convention %d' % (ex, text, conv)]
+            return []
+    finally:
+        os.remove(path)
+    nodes = [x.name for x in g.nodelist]; cols = [x.name for x in g.columnlist]; lays = [x.name for x in g.layerlist]
+    blks = list(g.block_name_list)
+    probs = []
+    if (len(nodes), len(cols), len(lays)) != (6, 2, 3): probs.append('%d nodes, %d columns, %d layers instead of 6, 2, 3' % (len(nodes), len(cols), len(lays)))
+    if any(len(x) != CL for x in nodes + cols): probs.append('node / column names %r %r not of length %d (convention %d)' % (nodes[:2], cols, CL, conv))
+    okc = set(digits + ' ') if conv in (1, 2) else set(text + ' ')
+    if any(ch not in okc for x in nodes + cols for ch in x): probs.append('node / column names %r %r have characters outside %r' % (nodes[:2], cols, ''.join(sorted(okc))))
+    if any(len(x) != 5 - CL for x in lays): probs.append('layer names %r not of length %d' % (lays, 5 - CL))
+    for what, xs in (('node', nodes), ('column', cols), ('layer', lays), ('block', blks)):
+        if len(set(xs)) != len(xs): probs.append('duplicate %s names %r' % (what, xs))
+    if len(blks) != 4 or any(len(b) != 5 for b in blks): probs.append('block names %r: not 4 names of five characters' % (blks,))
+    want = [(l, c) for l in lays[1:] for c in cols]
+    if len(want) == len(blks):
+        for b, (l, c) in zip(blks, want):
+            if g.column_name(b) != c or g.layer_name(b) != l:
+                probs.append('block %r built from layer %r column %r splits into layer %r column %r' % (b, l, c, g.layer_name(b), g.column_name(b))); break
+    return probs
+
+
 def replay(d):
     import mulgrids as mg
     fn = {'gen': replay_gen, 'rect': replay_rect, 'roundtrip': replay_roundtrip, 'addlayers': replay_addlayers, 'newkey': replay_newkey,
-          'fix': replay_fix, 'mapping': replay_mapping, 'uniq': replay_uniq}[d['task']]
+          'fix': replay_fix, 'mapping': replay_mapping, 'uniq': replay_uniq, 'inversion': replay_inversion, 'gmsh': replay_gmsh}[d['task']]
     try:
         probs = fn(mg, d)
     except Exception as ex:
